@@ -237,6 +237,10 @@ def _check_one_table(chk, driver, ename, rec, seen, stats):
                                rec["entity_type"], restriction)).encode() + rec["own"].tobytes()
         + np.asarray(tr.values).tobytes()).hexdigest()
     stats["ttypes"][tr.ttype] = stats["ttypes"].get(tr.ttype, 0) + 1
+    # DESIGN F19: the tolerances the classification really used (module defaults, not table_rtol/atol)
+    tol = f"clamp=({rec['clamp_rtol']:g},{rec['clamp_atol']:g}) classify=({rec.get('an_rtol', float('nan')):g},{rec.get('an_atol', float('nan')):g})"
+    stats.setdefault("tolerances_used", {})
+    stats["tolerances_used"][tol] = stats["tolerances_used"].get(tol, 0) + 1
     if key in seen:
         chk.case(kind="table", key=None)
         return
@@ -754,3 +758,31 @@ def probe_entries():
 
 def check_factorization_probes(chk, driver):
     return check_factorization(chk, driver, probe_entries())
+
+
+# --------------------------------------------------------------------------------------- demo
+if __name__ == "__main__":  # PYTHONPATH=/verif /venv/bin/python -m harness.ir_checks [--probes] [--finish]
+    import json
+    import sys
+    import time
+
+    from . import lean
+    from .framework import Check
+
+    chk = Check("C01", "quick", 0)
+    entries = corpus.fixed() + corpus.expressions()
+    with lean.Driver("driver_ir") as d:
+        t0 = time.time()
+        check_tables(chk, d, entries, rtol=1e-6, atol=1e-9)
+        t1 = time.time()
+        check_factorization(chk, d, entries)
+        t2 = time.time()
+        if "--probes" in sys.argv:
+            check_factorization_probes(chk, d)
+    print(f"tables {t1 - t0:.1f}s  factorization {t2 - t1:.1f}s  evaluations {chk.evaluations} "
+          f"distinct {len(chk.nontrivial)} disagreements {chk.disagreements_checked}")
+    print(json.dumps({k: v for k, v in chk.notes.items() if k != "factorization"}, default=str)[:1500])
+    for v in chk.violations:
+        print("violation:", v["key"])
+    if "--finish" in sys.argv:
+        sys.exit(chk.finish())
